@@ -28,7 +28,76 @@ func c01body(c *xplore.Ctx) (text string, form string, fs []ev.Finding, skipped 
 		return "", spec.Form, nil, true
 	}
 	text = gram.Render(c, spec.Toks)
-	return text, spec.Form, c01check(spec, text, c.Vector(), c.TotalCost()), false
+	fs = c01check(spec, text, c.Vector(), c.TotalCost())
+	if fs == nil {
+		fs = c01sequence(spec, text, c.Vector(), c.TotalCost())
+	}
+	return text, spec.Form, fs, false
+}
+
+// c01sibling renders the statement of the same choice vector with every name, string and regex renamed.
+func c01sibling(vec []int) (text string, ok bool) {
+	ok = true
+	defer func() {
+		if recover() != nil {
+			ok = false
+		}
+	}()
+	xplore.Replay(func(x *xplore.Ctx) {
+		g := gram.New(x)
+		g.Hook = func(idx int, k gram.Kind, role, def string) (string, string) {
+			switch k {
+			case gram.IDENT, gram.STR:
+				return def + "_s", ""
+			}
+			return def, ""
+		}
+		spec := gram.Statement(g)
+		if g.InvalidWhy != "" {
+			ok = false
+			return
+		}
+		text = gram.Render(x, spec.Toks)
+	}, vec)
+	return text, ok
+}
+
+// c01sequence: one Parser reads the statement and then a sibling of the same shape with other names (and the
+// reverse). What the first call returned must still be what its text denotes after the second call, and the second
+// result must be what a fresh parser returns: nothing of one statement may live in state the parser reuses.
+func c01sequence(spec *gram.Spec, text string, vec []int, rank int) []ev.Finding {
+	sib, ok := c01sibling(vec)
+	if !ok || sib == text {
+		return nil
+	}
+	alone, err := influxql.ParseStatement(sib)
+	if err != nil {
+		return nil
+	}
+	cs := vecCase{Vector: vec}
+	form := ev.SigSafe(spec.Form)
+	for order := 0; order < 2; order++ {
+		qt := text + ";" + sib
+		want := []influxql.Statement{spec.Stmt, alone}
+		if order == 1 {
+			qt = sib + "; " + text
+			want = []influxql.Statement{alone, spec.Stmt}
+		}
+		var q *influxql.Query
+		if p, st := try(func() { q, err = influxql.ParseQuery(qt) }); p != nil {
+			return []ev.Finding{{Sig: "panic:ParseQuery", Witness: qt, Detail: fmt.Sprint(p) + "\n" + st, Case: cs, Rank: rank}}
+		}
+		if err != nil || len(q.Statements) != 2 {
+			return []ev.Finding{{Sig: "sequence-rejected:" + form, Witness: qt, Detail: fmt.Sprintf("both statements parse alone; together: %v", err), Case: cs, Rank: rank}}
+		}
+		for k := range want {
+			if path, a, b := astx.Diff(astx.Denoted, want[k], q.Statements[k]); path != "" {
+				return []ev.Finding{{Sig: "parser-state-carried:" + form + ":" + astx.GenericPath(path), Witness: qt,
+					Detail: fmt.Sprintf("statement %d read by a parser that also read the other one: at %s want %s, got %s", k, path, a, b), Case: cs, Rank: rank}}
+			}
+		}
+	}
+	return nil
 }
 
 func c01check(spec *gram.Spec, text string, vec []int, rank int) []ev.Finding {
